@@ -399,9 +399,11 @@ func lexGround(l *lexer) stateFn {
 			}
 			return lexGround
 		case '*':
-			// Start of a /* comment
+			// Start of a /* comment.  The * belongs to the opener: it
+			// cannot also start the closing */.
+			l.next()
 			if !l.skipTo("*/") {
-				l.ErrorfAt(l.line, l.col-1, `missing closing */`)
+				l.ErrorfAt(l.line, l.col-2, `missing closing */`)
 				return nil
 			}
 			// Now actually skip the */
